@@ -175,6 +175,19 @@ CLAIMED["C06"] = dict(
     design="6/C06",
 )
 
+CLAIMED["C19"] = dict(
+    text="PARTIAL. The Lean run model is a function of (csvpath, records, configuration) by construction; the one explicit cross-run "
+         "state, the header cache, is proved to return what was stored for every header list with comma-free cells other than [''] "
+         "(c19_cache_roundtrip; cleaned headers never contain a comma). Tie: suite `jobs` runs sequences of 2-6 generated (csvpath, file) "
+         "jobs in one process and requires each job to give the lines, variables, printouts, errors, headers and verdict it gives alone "
+         "in a fresh subprocess — in sequence, repeated, and through CsvPaths.csvpath() with a cold and a warm cache, with header cells "
+         "containing spaces, quotes and delimiter-like characters.",
+    note="Process-global Python state (module registries, warnings filters, logging handlers) has no counterpart in a pure model; "
+         "history-independence of the implementation is tested, not proved. The csv module's own round trip for quoted cells is assumed.",
+    technique="Lean 4 proof (comma split/join round trip) + fresh-process differential testing",
+    design="6/C19",
+)
+
 NOT_YET = "check not built yet in this revision (planned: see DESIGN.md section 6); not claimed until its theorem and correspondence suite exist"
 
 
